@@ -39,6 +39,9 @@ type pop struct {
 }
 
 func (p pop) String() string {
+	if p.name == "TJ" {
+		return p.tjString()
+	}
 	var sb strings.Builder
 	if p.name == "Tf" || p.name == "Do" {
 		sb.WriteString("/" + p.ref + " ")
@@ -52,6 +55,14 @@ func (p pop) String() string {
 	}
 	sb.WriteString(p.name)
 	return sb.String()
+}
+
+// tjString renders "[(text) n] TJ": the adjustment follows the string, so the
+// origin of the string itself is that of a Tj; what a reader does with the
+// number must leave the text line matrix alone (later Td / T* / ' / " start
+// from the line's origin, not from the end of this string).
+func (p pop) tjString() string {
+	return "[(" + p.text + ") " + p.args[0].text + "] TJ"
 }
 
 func (p pop) model() imaging.Op {
@@ -255,7 +266,12 @@ func (g *genState) textObject(out *[]pop) {
 			if !g.haveFont {
 				*out = append(*out, g.tf())
 			}
-			*out = append(*out, pop{name: "Tj", text: g.tok.Next()})
+			if g.r.Intn(3) == 0 {
+				*out = append(*out, pop{name: "TJ", text: g.tok.Next(), args: []num{mkNum(float64(g.r.Intn(1200)-400), 0)}})
+				g.p.features["TJ-adjustment"] = true
+			} else {
+				*out = append(*out, pop{name: "Tj", text: g.tok.Next()})
+			}
 		case choice == 3 && g.quotes:
 			if !g.haveFont {
 				*out = append(*out, g.tf())
